@@ -1235,6 +1235,9 @@ func compileExpr(context *funcContext, reg int, expr ast.Expr, ec *expcontext) i
 			code.AddABC(OP_MOVE, sreg, reg, 0, sline(ex))
 			return 0
 		}
+		if 2+ec.varargopt > opMaxArgsB {
+			raiseCompileError(context, sline(ex), "too many results of '...'")
+		}
 		code.AddABC(OP_VARARG, sreg, 2+ec.varargopt, 0, sline(ex))
 		if context.RegTop() > (sreg+2+ec.varargopt) || ec.varargopt < -1 {
 			return 0
@@ -1771,6 +1774,9 @@ func compileFuncCallExpr(context *funcContext, reg int, expr *ast.FuncCallExpr, 
 	b := argc + 1
 	if islastvararg {
 		b = 0
+	}
+	if b > opMaxArgsB || ec.varargopt+2 > opMaxArgsC {
+		raiseCompileError(context, sline(expr), "too many arguments or results in function call")
 	}
 	context.Code.AddABC(OP_CALL, funcreg, b, ec.varargopt+2, sline(expr))
 	context.Proto.DbgCalls = append(context.Proto.DbgCalls, DbgCall{Pc: context.Code.LastPC(), Name: name})
